@@ -21,7 +21,7 @@ RULE = ("states = (salt, weight vector, splitter arity) programs; transitions = 
         "values as one-character ids, all strings <= 3 over 14 hostile characters, int/float/length ladders) and every code point "
         "of a range as a salt character; oracle = reference scheme + same-str pairs share the bucket")  # fmt: skip
 
-SALTS = [None, "", "s", "é", "日本", "e\u0301", "'", "\\", "a b", "\\'", "%s{0}", "🎲", "𝒳y𠀀", "\x7f\x01", "\u2028", "l’été", "“beta”", "‘a’", 'say "hi"', '"', "a\\"]
+SALTS = [None, "", "s", "pricing-$$", "$$", "save%%", "a{{b}}", "fr&quot;x", "it&#39;s", "é", "日本", "e\u0301", "'", "\\", "a b", "\\'", "%s{0}", "🎲", "𝒳y𠀀", "\x7f\x01", "\u2028", "l’été", "“beta”", "‘a’", 'say "hi"', '"', "a\\"]
 WV = {
     "ab": (("A", "1"), ("B", "1")),
     "123": (("x", "1"), ("y", "2"), ("z", "3")),
